@@ -5,7 +5,7 @@ prior value, notifier write/clear/arm/disarm, kernel enter/return) of the real
 driver - under stress, inside forced windows of Driver::poll, in external-loop
 mode and under a real Runtime - must be accepted by the extracted acceptor
 (coq/model/RunC03.v: a run of the LTS restricted to the driver-level variables,
-read-modify-write order reconstructed from the prior values), and an oracle on
+read-modify-write order reconstructed from the prior values and the begin/end log entries of each operation), and an oracle on
 the harness's own measurements (poll returned / fd readable / task polled again)
 must hold."""
 import diffcheck
@@ -31,7 +31,7 @@ class C03(diffcheck.DiffProp):
     counts = {"quick": 240, "thorough": 2400}
     manifest = dict(
         text="Coq proof over an interleaving labelled transition system (one atomic memory operation or system call = one label) of the runtime thread (block_on loop and external-loop mode: poll main future, tick with drain_sync, reset, arm notifier, enter, set_awake, poll_entries, set_awake / flush, external wait, poll(zero)), any number of waker threads going through Remote::schedule and Notify::wake_by_ref, and the kernel (notifier completions, multishot termination), for every queue capacity >= 1 and both notifier flavours: in every reachable state a completed, unconsumed wake of a task or of the main future implies the runtime is not stuck in its wait (ready, or eventfd non-zero with the notifier armed, or a waker on its way); measure on the runtime's own steps until the next poll; SCHEDULED coalesces only while the id is queued / hot / being pushed; a full queue makes the waker wait and `pending` bounds the queued ids. Witness lemmas refute the two earlier code variants (flush not arming the notifier, fixed by 43c7a63; no driver wake after a push that waited for a slot, fixed by 98ca18e). Tied to the code by accepting hook-recorded histories of the real drivers (stress, forced windows at the sched points of Driver::poll, external-loop black box, real Runtime with queue sizes 1/2/64 incl. the forced full-queue window) with the extracted acceptor (its driver-level transition function is proved to accept every projected run of the LTS, keeping flag / NEED_PUSH_NOTIFIER / owed notifier writes equal: C03_model_runs_accepted), plus oracles on measured outcomes.",
-        note="Partial: sequential consistency only (weak-memory reorderings allowed by the Acquire/Release orderings are not modelled); eventfd / io_uring multishot poll / epoll level semantics are environment labels (assumed); task completion and cancellation, the blocking pool, SQ overflow inside arm_notifier and the drain piggy-backed on a local wake are left out of the model; the tokio / async-io adapters of compio-compat are not run (the external loop is played by the harness: flush, libc::poll on the driver fd, poll(zero)); forced multishot termination is proved in the model (LKTerm) but not provoked on the real kernel. Trusted: Coq kernel, extraction + driver, cfg(compio_verif) hook commits in compio-driver and compio-executor, harness/rt/src/bin/c03.rs, the acceptor's reconstruction of the atomic order from a log written after each operation (assignment of wakes to phases between the driver's stores) is executable Gallina but not itself proved complete or minimal; only its in-order core (dstep) is proved to accept the model's runs. No axioms.",
+        note="Partial: sequential consistency only (weak-memory reorderings allowed by the Acquire/Release orderings are not modelled); eventfd / io_uring multishot poll / epoll level semantics are environment labels (assumed); task completion and cancellation, the blocking pool, SQ overflow inside arm_notifier and the drain piggy-backed on a local wake are left out of the model; the tokio / async-io adapters of compio-compat are not run (the external loop is played by the harness: flush, libc::poll on the driver fd, poll(zero)); forced multishot termination is proved in the model (LKTerm) but not provoked on the real kernel. Trusted: Coq kernel, extraction + driver, cfg(compio_verif) hook commits in compio-driver and compio-executor, harness/rt/src/bin/c03.rs, the acceptor's reconstruction of the atomic order (a linearizability search: every AwakeFlag operation takes effect between its AWAKE_BEGIN entry and its own log entry, budgeted depth-first search over the operations in flight) is executable Gallina but not itself proved complete; its transition function dstep is proved to accept the model's runs in atomic order. No axioms.",
         technique="Coq invariant proof over an interleaving LTS + acceptance of recorded histories by the extracted acceptor + forced-schedule replay")
     rule = ("cases = stress histories (K in {1,2,4,8} waker threads x R wakes against a looping poll), forced windows "
             "(sched points 1,2,3 of Driver::poll), external-loop black box (flush, wake, fd readable; 4 variants), "
@@ -76,7 +76,7 @@ class C03(diffcheck.DiffProp):
         d = "io_uring" if drv == 0 else "polling"
         if mode == 1:
             if r4 != 0:
-                return ("%s: %d of %d wakes were not followed by a poll return within 1 s (poll timeout 3 s; "
+                return ("%s: %d of %d wakes were not followed by a poll return within 2.5 s (poll timeout 3 s; "
                         "worst latency %d ms)" % (d, r4, r1, r3))
         elif mode == 2:
             if r2 != 1:
